@@ -13,7 +13,8 @@ class C02(TreeCheck):
         "waited shutdown) are profiled, then one worker is killed at a statement boundary of its life (start-up, Queue.__setstate__, initializer, "
         "blocked/reading in Queue.get incl. under _rlock, unpickling, running, _sendback_result / SimpleQueue.put under _wlock, idle, memory-check "
         "branch, time-out/exit handshake) by SIGKILL/SIGSEGV/SIGTERM/os._exit(n)/C exit(n); plus die() tasks, unpicklable results/arguments and "
-        "external chaos kills; plus manager-thread delays combined with a death (DK). Non-trivial = a death actually happened; distinct = "
+        "external chaos kills; plus manager-thread delays combined with a death (DK); plus linger-then-die (LK: the worker stays 0.3-0.6 s at the statement where it then dies, holding what it holds there, "
+        "while siblings keep the manager thread looping - family idle_sibling makes the time-out branch recur). Non-trivial = a death actually happened; distinct = "
         "(program shape, function where the worker died, cause, announcement state, outcome classes of the futures)."
     )
     assumptions = [
@@ -25,7 +26,7 @@ class C02(TreeCheck):
         n = 12 if tier == "quick" else 60
         out = []
         for i in range(n):
-            prog, meta = programs.g_crash(rng, force_churn=(i % 6 == 1))
+            prog, meta = programs.g_crash(rng, force_churn=(i % 6 == 1), family="idle_sibling" if i % 6 == 3 else None)
             out.append({"program": prog, "config": {"keep_procs": True, "sigchld_ignore": bool(meta.get("sigchld_ignore"))}, "meta": meta})
         return out
 
@@ -65,6 +66,20 @@ class C02(TreeCheck):
             # psutil is gone by the time it is signalled
             for pt in explore.points_of(F, role="driver", thr="mgr", quals=["_kill_process_tree_with_psutil"])[:8]:
                 out.append(({"rules": [explore.rule(pt, ["sleep", 0.08], hit=0)]}, {"mode": "DS", "fn": pt["qual"]}))
+        # linger-then-die: the worker holds what it holds at that statement while the manager thread keeps looping
+        fam = base["meta"].get("family") == "idle_sibling"
+        out += explore.derive_LK(F, base, rng, (10 if fam else 3) if quick else (30 if fam else 8),
+                                 quals=["_process_worker", "SimpleQueue.put", "Queue.get", "SemLock.__enter__", "SemLock.__exit__", "_sendback_result"])
+        if fam:
+            # targeted: the idle worker lingers between acquire and release of the management lock in its time-out branch, then dies
+            rel = explore.rel_of_source("process_executor.py", "_process_worker", "processes_management_lock.release()")
+            workers = sorted({p["proc"] for p in explore.points_of(F, role="worker", quals=["_process_worker"]) if p["proc"]})
+            if rel is not None:
+                # which worker idles out first differs from run to run: the rule applies to whichever reaches the statement
+                for act in (["kill", "SIGKILL"], ["exit", 3], ["kill", "SIGTERM"]):
+                    for linger in (0.3, 0.6):
+                        pt = {"role": "worker", "proc": None, "thr": "user", "file": "process_executor.py", "qual": "_process_worker", "rel": rel}
+                        out.append(({"rules": [explore.rule(pt, ["sleep", linger], hit=1), explore.rule(pt, act, hit=1)]}, {"mode": "LK", "fn": "_process_worker", "act": act[0] + str(act[1]), "at": "management_lock_held"}))
         out += explore.derive_Z(rng, 1 if quick else 3)
         return out
 
